@@ -188,6 +188,54 @@ func checkMatchFlag(w *World, r *Report, tm *Terms, tree map[*ssa.Function]bool)
 		"the flag is only ever written as true, and only for the bids of the current matching: a bid that matched at an earlier end time and is outbid in a later round stays flagged IsMatched although it receives nothing in the final settlement")
 	r.Check(computedOK, "PUB-MATCHFLAG", fnn+":follows-matching", where, "a computed flag value depends on the matching result's matched bids",
 		"the flag written does not depend on the matched set")
+	// a record whose stored flag differs from the computed one is written: a guard that skips the write exactly then
+	// (an inverted "only if changed" test) persists nothing
+	stale := false
+	for _, s := range sites {
+		if !(s.mayTrue && s.mayFalse) {
+			continue
+		}
+		sr := &staleFlagRule{target: s.in}
+		NewExplorer(w, tm, sr).Run(s.fn, 0)
+		if sr.hit {
+			stale = true
+		}
+	}
+	r.Check(stale, "PUB-MATCHFLAG", fnn+":written-when-stale", where,
+		"with the stored IsMatched different from the computed flag, the record write is reachable",
+		"with the stored IsMatched different from the computed flag no Bid write is reachable: the computed flag is never persisted")
+}
+
+// staleFlagRule: every comparison of a record's stored IsMatched with another boolean says "different".
+type staleFlagRule struct {
+	BaseRule
+	target ssa.Instruction
+	hit    bool
+}
+
+func (s *staleFlagRule) Compare(x *Explorer, fr *Frame, op token.Token, l, r ssa.Value) AV {
+	if op != token.EQL && op != token.NEQ {
+		return Unknown
+	}
+	isBool := func(v ssa.Value) bool {
+		b, ok := v.Type().Underlying().(*types.Basic)
+		return ok && b.Kind() == types.Bool
+	}
+	if !isBool(l) || !isBool(r) {
+		return Unknown
+	}
+	lt, rt := uncell(x.TM.Of(fr, l)), uncell(x.TM.Of(fr, r))
+	if isField(lt, "IsMatched") == isField(rt, "IsMatched") {
+		return Unknown
+	}
+	return Bool(op == token.NEQ)
+}
+
+func (s *staleFlagRule) OnInstr(x *Explorer, fr *Frame, in ssa.Instruction, st uint64) uint64 {
+	if in == s.target {
+		s.hit = true
+	}
+	return st
 }
 
 // ---------------------------------------------------------------- PUB-PRICE
@@ -196,6 +244,24 @@ type priceRule struct {
 	BaseRule
 	w  *World
 	tm *Terms
+	// sold: explore the case "the matching found a price" — the result's price is not nil
+	sold bool
+}
+
+func (p *priceRule) CallResult(x *Explorer, fr *Frame, c ssa.CallInstruction) ([]AV, CallMode) {
+	if !p.sold {
+		return nil, CallDefault
+	}
+	cc := c.Common()
+	if strings.HasSuffix(callKey(cc), mathPath+".LegacyDec.IsNil") && len(cc.Args) == 1 {
+		t := x.TM.OperandAt(fr, c, cc.Args[0])
+		if t.Any(func(y *Term) bool {
+			return (isField(y, "MatchedPrice") || isField(y, "MatchPrice")) && !isNamed(typeOfTerm(y.Args[0]), typesPath, "BatchAuction")
+		}) {
+			return []AV{False}, CallReplace
+		}
+	}
+	return nil, CallDefault
 }
 
 const (
@@ -344,6 +410,22 @@ func checkPubPrice(w *World, r *Report, tm *Terms, tree map[*ssa.Function]bool) 
 		bad = append(bad, "no non-failing settlement path found")
 	} else if real == 0 && len(bad) == 0 {
 		bad = append(bad, "no settlement path assigns the matching result's price (only a constant zero)")
+	}
+	// when the matching found a price (the result's price is not nil), every settlement path publishes that price — a
+	// guard that publishes it only when it is nil publishes nothing
+	if len(bad) == 0 {
+		for _, o := range NewExplorer(w, tm, &priceRule{w: w, tm: tm, sold: true}).Run(root, 0) {
+			if o.Kind != ExitReturn || o.St&ppT == 0 {
+				continue
+			}
+			if av, ok := o.ErrAV(root); ok && av.K == avNonNil {
+				continue
+			}
+			if o.St&ppPW == 0 {
+				bad = append(bad, fmt.Sprintf("with a matching price found (not nil), the settlement path ending at %s does not assign it to BatchAuction.MatchedPrice", w.instrPos(o.Instr)))
+			}
+		}
+		bad = dedupe(bad)
 	}
 	r.Check(len(bad) == 0, "PUB-PRICE", fnName(root)+":publishes-price", w.pos(root.Pos()),
 		"every non-failing settlement path of "+fnName(root)+" assigns BatchAuction.MatchedPrice from the matching result and then stores the auction",
